@@ -218,7 +218,8 @@ if __name__ == "__main__":
                 '<fragment id="5" BoundingBox="0 0 40 40"><n id="1" p="10 10"/><n id="2" p="24 10"/><b id="3" B="1" E="2"/></fragment>'
                 '<fragment id="6" BoundingBox="100 0 140 40"><n id="7" p="110 10" Element="8"/><n id="8" p="124 10"/><b id="9" B="7" E="8"/></fragment>'
                 '<t id="90" p="20 80" BoundingBox="10 70 30 90"><s face="1">k1</s></t>'
-                '<t id="91" p="120 80" BoundingBox="110 70 130 90"><s face="1">k2</s></t></page></CDXML>')
+                '<t id="91" p="120 80" BoundingBox="110 70 130 90"><s face="1">k2</s></t>'
+                '<t id="92" p="120 95" BoundingBox="110 90 130 100"><s face="1">k1</s></t></page></CDXML>')      # the text "k1" a second time
         p = tmpfile(text)
         try:
             c = ml.CDXMLFile(p)
